@@ -286,6 +286,17 @@ func TestC10(t *testing.T) {
 			if rapid.IntRange(0, 3).Draw(t, "minimal") == 0 {
 				c.Input2 = gram.RenderMinimal(g, toks)
 			}
+			if g.IsElided("Comment") && rapid.IntRange(0, 19).Draw(t, "longrun") == 0 {
+				// hundreds of elided tokens in a row (comment, blank, comment, ...) at the end of one rendering, or
+				// after its first token
+				run := strings.Repeat(" #c#", rapid.SampledFrom([]int{127, 128, 130, 200, 383}).Draw(t, "runlen"))
+				if i := strings.IndexAny(c.Input2, " \n\t"); i > 0 && rapid.Bool().Draw(t, "runinside") {
+					c.Input2 = c.Input2[:i] + run + c.Input2[i:]
+				} else {
+					c.Input2 += run + " "
+				}
+				r.Count("case_with_a_run_of_hundreds_of_elided_tokens")
+			}
 			report(t, r, checkC10(c, b, r), c)
 		}
 	})
